@@ -156,7 +156,8 @@ def andoyer(repo, rep, d, alg0):
         val = leaf[1] if leaf[0] == "tuple" and len(leaf) >= 2 else leaf
         if val == T.ZERO:
             # only under a test that the separation measure s is zero
-            zero_guard = any(c[0] == "cmp" and c[1] == "Eq" and c[3] == T.ZERO and even_norm(c[2]) == even_norm(S) for c in conds)
+            conds_n = [(("cmp", "Eq", c[1][2], c[1][3]) if (c[0] == "not" and c[1][0] == "cmp" and c[1][1] == "NotEq") else c) for c in conds]
+            zero_guard = any(c[0] == "cmp" and c[1] == "Eq" and c[3] == T.ZERO and even_norm(c[2]) == even_norm(S) for c in conds_n)
             if zero_guard:
                 rep.ok("R-RECIPE", site + "[s == 0]", "returns 0 exactly when s = sin^2G cos^2L + cos^2F sin^2L vanishes (coincident points)", obligation=True)
             else:
